@@ -207,7 +207,15 @@ def _feval0(e, env):
         if ("fn:" + name) in env:
             return env["fn:" + name](*a)
         fn = {"r_exp": math.exp, "r_log": lambda v: math.log(v) if v > 0 else float("nan"), "r_tanh": math.tanh, "r_arctanh": lambda v: math.atanh(v) if -1 < v < 1 else float("nan"),
-              "r_sqrt": lambda v: math.sqrt(v) if v >= 0 else float("nan")}.get(name)
+              "r_sqrt": lambda v: math.sqrt(v) if v >= 0 else float("nan"),
+              # T3 symbols of the standard log-densities (jax.scipy.stats.<family>.logpdf): their textbook definitions, so that a refutation of
+              # "hand-written formula == library log-density" is validated with real numbers instead of being believed from a free interpretation
+              "std_logpdf_norm": lambda v: -0.5 * v * v - 0.5 * math.log(2 * math.pi),
+              "std_logpdf_cauchy": lambda v: -math.log(math.pi) - math.log1p(v * v),
+              "std_logpdf_laplace": lambda v: -abs(v) - math.log(2.0),
+              "std_logpdf_logistic": lambda v: -abs(v) - 2.0 * math.log1p(math.exp(-abs(v))),
+              "std_logpdf_uniform": lambda v: 0.0 if 0.0 <= v <= 1.0 else float("-inf"),
+              "std_logpdf_expon": lambda v: -v if v >= 0.0 else float("-inf")}.get(name)
         if fn is None or len(a) != 1:
             raise _NoEval(f"uninterpreted {name}")
         try:
